@@ -385,9 +385,9 @@ def run(ctx):
         gen_and_replay("g_roll", 5, consts(5, 1, spans="{2}"), 7, 3, freewd=False, vary=True)
         gen_and_replay("g_del", 5, consts(5, 1, spans="{1}", deletes=True), 6, 1, freewd=False, vary=True)
         gen_and_replay("g_del4", 5, consts(5, 2, spans="{1}", deletes=True), 6, 4, freewd=False, vary=True)
-        gen_and_replay("g_del6", 5, consts(5, 1, spans="{1, 2}", deletes=True, maxdeloff=2), 5, 6, freewd=False, maxdel=2,
+        gen_and_replay("g_del6", 5, consts(5, 1, spans="{1, 2}", deletes=True, maxdeloff=2), 5, 6, freewd=False, maxdel=1,
                        vary=True)
-        gen_and_replay("g_del7", 5, consts(5, 1, maxwrite=3, spans="{1, 3}", deletes=True, maxdeloff=2), 4, 7, freewd=False, maxdel=2,
+        gen_and_replay("g_del7", 5, consts(5, 1, maxwrite=3, spans="{3}", deletes=True, maxdeloff=2), 4, 7, freewd=False, maxdel=2,
                        vary=True)
         exhaustive_n = sum(g["histories"] for g in gens)
         gen_and_replay("s_big", 7, consts(7, 3, spans="{0, 1, 2, 3}", anyfile=True, deletes=True, maxdeloff=2), 12, 5,
